@@ -226,6 +226,15 @@ func (p *parser) lowerSuperPropertyOrPrivateInAssign(expr js_ast.Expr) (js_ast.E
 			didLower = true
 		}
 
+	case *js_ast.EBinary:
+		// "[a.#b = c] = []" => "[__privateWrapper(a, #b)._ = c] = []"
+		if e.Op == js_ast.BinOpAssign {
+			if left, ok := p.lowerSuperPropertyOrPrivateInAssign(e.Left); ok {
+				e.Left = left
+				didLower = true
+			}
+		}
+
 	case *js_ast.EArray:
 		for i, item := range e.Items {
 			if item, ok := p.lowerSuperPropertyOrPrivateInAssign(item); ok {
